@@ -201,6 +201,8 @@ class Text(BaseColumnType):
       # More than 15 digits of precision can make large numbers (e.g. 2^53+1) look as if
       # they're represented exactly when they're not
       return u"%.15g" % value
+    elif isinstance(value, (set, frozenset)):
+      return objtypes.safe_repr(value)     # fixed element order, see safe_repr
     else:
       return str(value)
 
